@@ -262,6 +262,9 @@ func (n *node) ApplyUpdate(e pb.Entry,
 
 func (n *node) ApplyConfigChange(cc pb.ConfigChange,
 	key uint64, rejected bool) error {
+	if verifEnabled {
+		verifYield("node.ApplyConfigChange")
+	}
 	n.raftMu.Lock()
 	defer n.raftMu.Unlock()
 	if !rejected {
